@@ -117,6 +117,40 @@ theorem C20_end_to_end {τ : Type} (self addrType : Nat) (addr : Bytes) (path : 
   obtain ⟨_, ep, hep, hk, ht⟩ := C20_target running maxConn connCount eps key t h
   exact ⟨ep, hep, by rw [hdom, hk], ht⟩
 
+/-- Both ends agree: the address DialForward writes for a key of at most 247 bytes is read back
+    by the exit node as a forward request for exactly that key (so `C20_end_to_end` applies to
+    what an ingress listener asked for). -/
+theorem C20_ingress_roundtrip (self : Nat) (key : Bytes) (path : List Nat)
+    (hlen : forwardPrefix.length + key.length < 256) (hexit : isExit self path = true) :
+    dispatch self Gen.C20.addrTypeDomain (wireAddr (ingressAddr key)) path = .forward key := by
+  apply (C20_dispatch_iff self _ _ path key).mpr
+  refine ⟨hexit, rfl, ?_⟩
+  unfold ingressAddr wireAddr domainString
+  simp only [List.drop_succ_cons, List.drop_zero]
+  rw [Nat.mod_eq_of_lt hlen]
+  have h : (UInt8.ofNat (forwardPrefix.length + key.length)).toNat = (forwardPrefix ++ key).length := by
+    rw [UInt8.toNat_ofNat', List.length_append]
+    exact Nat.mod_eq_of_lt hlen
+  rw [h, List.take_length]
+
+/-- Longer keys (248..255 bytes, the most a route advertisement can carry) are truncated by the
+    one-byte length: what arrives is a strict prefix of `forward:` — never a forward request for
+    any key, so no forward target is dialled for them at all (the listener simply cannot connect). -/
+theorem C20_ingress_long_key (self : Nat) (key : Bytes) (path : List Nat)
+    (h1 : 256 ≤ forwardPrefix.length + key.length) (h2 : forwardPrefix.length + key.length < 256 + forwardPrefix.length) :
+    ∀ k, dispatch self Gen.C20.addrTypeDomain (wireAddr (ingressAddr key)) path ≠ .forward k := by
+  intro k hk
+  obtain ⟨_, _, hd⟩ := (C20_dispatch_iff self _ _ path k).mp hk
+  have hlen := congrArg List.length hd
+  unfold ingressAddr wireAddr domainString at hlen
+  simp only [List.drop_succ_cons, List.drop_zero, List.length_take, List.length_append, UInt8.toNat_ofNat'] at hlen
+  have hp : forwardPrefix.length = 8 := by decide
+  rw [hp] at hlen h1 h2
+  omega
+
+example : dispatch 1 Gen.C20.addrTypeDomain (wireAddr (ingressAddr [0x77, 0x65, 0x62])) [] = .forward [0x77, 0x65, 0x62] :=
+  C20_ingress_roundtrip 1 _ [] (by decide) rfl
+
 /-! Non-vacuity: near-miss keys are unknown; duplicates resolve to the last entry. -/
 example : handleOpen true 1000 0 [⟨[0x77, 0x65, 0x62], (1 : Nat)⟩, ⟨[0x64, 0x62], 2⟩] [0x77, 0x65, 0x62] = .dial 1 := by
   decide
